@@ -40,6 +40,8 @@ type caseRec struct {
 	Note     string   `json:"note,omitempty"`
 }
 
+var tPrepare, tClose, tCase, tSnap, tNew vk.Counter
+
 type viol struct {
 	what string // stable first part of the key
 	rec  caseRec
@@ -161,13 +163,22 @@ func (c *stateCtx) runCase(it item, path string) (o outcome) {
 	if d.Seq == "twice" {
 		o.class = "i" // relative to the tip after the first delivery
 	}
+	t0 := time.Now()
 	n, err := c.prepare()
+	tPrepare.Add(int(time.Since(t0).Microseconds()))
 	if err != nil {
 		o.harness = "prepare: " + err.Error()
 		return
 	}
-	defer func() { n.Close() }()
+	defer func() {
+		t1 := time.Now()
+		n.Close()
+		tClose.Add(int(time.Since(t1).Microseconds()))
+		tCase.Add(int(time.Since(t0).Microseconds()))
+	}()
+	t2 := time.Now()
 	pre, err := takeSnap(n, c.maxID)
+	tSnap.Add(int(time.Since(t2).Microseconds()))
 	if err != nil {
 		o.harness = "snapshot: " + err.Error()
 		return
@@ -565,10 +576,9 @@ func TestCheck(t *testing.T) {
 				}
 			}
 			for i, h := range hs {
-				// every node under two of the four node-local modes
-				for _, m := range []int{i % 2 * 2, i%2*2 + 1} {
-					specs = append(specs, stateSpec{fam: k.fam, pad: k.pad, hist: sc.Names(h), mode: modes[m].Name})
-				}
+				// the four node-local modes rotate over the nodes of the tree (each
+				// template block is the tip under every mode somewhere in the tree)
+				specs = append(specs, stateSpec{fam: k.fam, pad: k.pad, hist: sc.Names(h), mode: modes[(i+len(h))%len(modes)].Name})
 			}
 		}
 	}
@@ -698,6 +708,9 @@ func TestCheck(t *testing.T) {
 			r.Sample(map[string]any{"state": j.c.label(), "corruption": j.it.ID, "path": j.path, "class": o.class, "result": o.result, "node_error": o.errText, "header_recorded": o.recHdr})
 		}
 	})
+	if os.Getenv("C06_TIMING") != "" {
+		fmt.Printf("timing (us, summed over %d cases): case=%d prepare=%d close=%d one-snapshot=%d new=%d\n", cases.Get(), tCase.Get(), tPrepare.Get(), tClose.Get(), tSnap.Get(), tNew.Get())
+	}
 	if len(harness) > 0 {
 		sort.Strings(harness)
 		for _, h := range harness {
